@@ -264,12 +264,13 @@ static int run_case(const struct prog *prog, struct vs_config *cfg, struct vp_re
         vp_fault_disarm();
         if (f != NULL) ubuf_free(f);
         rep->classes |= 1u << CL_FAILED_STRUCT;
-    } else if (inner && cx.mgr && p->failed_struct == 2) {
+    } else if (inner && cx.mgr && p->failed_struct >= 2) {
         struct ubuf *a = ubuf_block_alloc(cx.mgr, AREA), *b = ubuf_block_alloc(cx.mgr, AREA);
         if (a && b && ubase_check(ubuf_block_append(a, b))) {
             b = NULL;
             vp_fault_arm(2);            /* the structure of the head is allocated, the one of the second segment is not */
-            struct ubuf *d = ubuf_dup(a);
+            struct ubuf *d = p->failed_struct == 2 ? ubuf_dup(a) :
+                             p->failed_struct == 3 ? ubuf_block_splice(a, 0, -1) : ubuf_block_splice(a, AREA / 2, AREA);   /* a window over both segments */
             vp_fault_disarm();
             if (d != NULL) ubuf_free(d);
             rep->classes |= 1u << CL_FAILED_STRUCT;
@@ -380,7 +381,7 @@ static void decode_prog(struct tape *t, struct prog *p)
     uint8_t b0 = tp_u8(t);
     p->nthreads = 2 + b0 % 2;
     p->failed_allocs = (b0 >> 1) % 4 == 3 ? 1 + ((b0 >> 3) & 1) : 0;
-    p->failed_struct = ((b0 >> 1) % 4 == 2 && (b0 & 0x10)) ? 1 + ((b0 >> 3) & 1) : 0;
+    p->failed_struct = ((b0 >> 1) % 4 == 2 && (b0 & 0x10)) ? 1 + ((b0 >> 3) & 1) + 2 * ((b0 >> 5) & 1) : 0;      /* 1..4 */
     uint8_t pc = tp_u8(t) % 5;
     p->ubuf_pool = pool_cfg[pc][0];
     p->shared_pool = pool_cfg[pc][1];
